@@ -37,6 +37,11 @@ fn main() {
         mon::c07::miri_main(&args);
         return;
     }
+    if property == "C09-order" {
+        api::install_panic_hook();
+        mon::c09::order_child(args[2].parse().unwrap_or(0));
+        return;
+    }
     if property == "C09-vclock-history" {
         api::install_panic_hook();
         mon::c09::vclock_history_child(args[2].parse().expect("base timestamp"), &args[3]);
